@@ -6,6 +6,8 @@
 import json, os, subprocess, sys, shutil, time
 
 ALL = [f"C{i:02d}" for i in range(1, 21)]
+V = os.environ.get("MC_VERIF_DIR", "/verif")
+R = os.environ.get("MC_REPO_DIR", "/repo")
 
 def sh(cmd, cwd=None, timeout=3600):
     p = subprocess.run(cmd, shell=True, cwd=cwd, capture_output=True, text=True, timeout=timeout)
@@ -52,23 +54,23 @@ def verify(seed, wt=None):
 
 def detect(seed, props):
     seed = os.path.abspath(seed)
-    rc, out = sh("git -C /repo status --porcelain")
-    assert out.strip() == "", "/repo working tree is not clean: " + out
-    rc, out = sh(f"git -C /repo apply {seed}/patch.diff")
+    rc, out = sh(f"git -C {R} status --porcelain")
+    assert out.strip() == "", f"{R} working tree is not clean: " + out
+    rc, out = sh(f"git -C {R} apply {seed}/patch.diff")
     assert rc == 0, out
     row = {}
     try:
         for p in props:
             t = time.time()
-            rc, out = sh(f"./check {p} quick", cwd="/verif")
+            rc, out = sh(f"./check {p} quick", cwd=V)
             viol = [l for l in out.splitlines() if l.startswith("VIOLATION")]
             cls = [l.strip() for l in out.splitlines() if l.strip().startswith("class=")]
             row[p] = {"exit": rc, "violation": bool(viol), "classes": [c[:160] for c in cls[:3]], "s": round(time.time() - t, 1)}
             mark = "VIOLATION" if viol else ("machinery" if rc == 2 else "-")
             print(f"  {p}: {mark} {cls[0][:140] if cls else ''}", flush=True)
     finally:
-        sh("git -C /repo checkout -- .")
-        sh("rm -f /verif/replays/*.json")
+        sh(f"git -C {R} checkout -- .")
+        sh(f"rm -f {V}/replays/*.json")
     return row
 
 if __name__ == "__main__":
